@@ -6,6 +6,9 @@ props = [json.loads(l) for l in open(os.path.join(V, "properties.jsonl"))]
 ids = [p["id"] for p in props]
 
 CLAIMS = {
+ "C13": dict(cat="model_checking", tech="TLC model check of spec/LockProto.tla (system-call interleavings) + TLC linearizability validation (spec/TraceLock.tla) of enumerated real schedules driven through yield hooks",
+   text="LockProto.tla models stat/open/flock/verify/unlink/close and process death of 3 processes x 2 rounds exhaustively (AtMostOneHolder, NoLeak hold for the repaired protocol; the pinned protocol is refuted; MustRecover is refuted = known finding D5c). The real lock code is driven through enumerated interleavings of its system-call steps (2-3 openers with a closing or dying holder) on a real directory via the verif yield hooks, and every schedule's results are validated by TLC as a linearizable lock object. Database-level session chains (clean/unclean ends, competing Opens) are validated against Layer A.",
+   note="Processes are goroutines (flock conflicts between open file descriptions within a process); only the unix lock code is exercised. Known finding D5c is listed in known_findings.json.", ref="4.3, 6 (C13)"),
  "C07": dict(cat="model_checking", tech="TLC linearization search (silent Lin steps, just-in-time placement) over recorded concurrent histories against Layer A",
    text="Free-running concurrent histories of the real code (2-3 writers/readers on hot keys plus a goroutine running Compact, Sync, Backup, scans, Count, FileSize, Metrics, optionally the background workers; all four file systems) and hook-forced interleavings with compaction are recorded with real-time-ordered invocation/response events; TLC searches for linearization points against the sequential map of Layer A and rejects a history only if no order explains the results. Quiescent read-backs at barriers and after the final clean reopen are compared exactly.",
    note="Trusts TLC and the event stamping (one mutex around event emission; inv before the call, ret after). Bounded concurrency (<= 4 overlapping calls) keeps the search finite in practice.", ref="6 (C07)"),
